@@ -177,16 +177,16 @@ func (a *Slice) M__eq__(other Object) (Object, error) {
 		return NotImplemented, nil
 	}
 
-	if a.Start != b.Start {
-		return False, nil
-	}
-
-	if a.Stop != b.Stop {
-		return False, nil
-	}
-
-	if a.Step != b.Step {
-		return False, nil
+	// compare like the tuples (start, stop, step): the members are arbitrary
+	// objects, which go's != compares by representation or cannot compare at all
+	for _, pair := range [3][2]Object{{a.Start, b.Start}, {a.Stop, b.Stop}, {a.Step, b.Step}} {
+		eq, err := Eq(pair[0], pair[1])
+		if err != nil {
+			return nil, err
+		}
+		if eq != True {
+			return False, nil
+		}
 	}
 
 	return True, nil
